@@ -12,8 +12,8 @@ structure St where
   sess : Session
   scheme : String
   dead : Bool := false
-  /-- `interleave_blocks = 0`: the FDT (TOI 0, never empty) is sent first with the same window, its encoder reaches the
-      `debug_assert` before any object packet: the first `Sender::read` panics whatever the object is -/
+  /-- (unused since /repo 0805b7e: `Sender::new` treats `interleave_blocks = 0` as 1 - the driver clamps the window
+      accordingly in `opNew`; before that commit the FDT's own encoder reached the `debug_assert` at the first read) -/
   fdtPanics : Bool := false
 
 def lcgNext (x : Nat) : Nat := (x * 6364136223846793005 + 1442695040888963407) % 2^64
@@ -130,9 +130,11 @@ def opNew (legacy : Bool) (a : List String) : Option St × String :=
             | .ok (aL, _, _, _) => aL
             | .error _ => 0
           if !legacy && (scheme == "rs28" || scheme == "rs28us") && (p = 0 ∨ aLarge + p > 256) then (none, "ERR add") else
-          let P : Params := { codec := codec, e := e, b := b, p := p, window := win, len := l, legacy := legacy }
+          -- /repo 29615e2: source blocks larger than the code supports are refused (Raptor K ≤ 8192, RaptorQ K ≤ 56403)
+          if !legacy && ((scheme == "raptor" && aLarge > 8192) || (scheme == "raptorq" && aLarge > 56403)) then (none, "ERR add") else
+          let P : Params := { codec := codec, e := e, b := b, p := p, window := (if win = 0 then 1 else win), len := l, legacy := legacy }
           (some { sess := { P := P, src := source, maxtc := maxtc, carousel := car == 1, allowStop := allow == 1 }, scheme := scheme,
-                  fdtPanics := win == 0 },
+                  fdtPanics := false },
            s!"ok {l}")
     | _, _ => (none, "bad-op")
   | _ => (none, "bad-op")
